@@ -193,6 +193,19 @@ def parse_items(src, toks, lo, hi, parent):
         it.tok_lo = i
         it.start = toks[i].a
         j = i
+        # an inner attribute `#![..]` is an item of its own (keeps it outside any wrapper)
+        jj = i
+        while jj < hi and toks[jj].k == 'com':
+            jj += 1
+        if jj + 2 < hi and toks[jj].s == '#' and toks[jj + 1].s == '!' and toks[jj + 2].s == '[':
+            c = match_close(toks, jj + 2)
+            it.kind = 'innerattr'
+            it.kw = toks[jj].a
+            it.tok_hi = c
+            it.end = toks[c].b
+            items.append(it)
+            i = c + 1
+            continue
         # skip comments and attributes
         while j < hi:
             t = toks[j]
